@@ -231,3 +231,16 @@ def discharge(obligations: list, timeout_ms: int = 10000, jobs: int = 0, use_cvc
         results[idx] = Result(ob.name, status, backend, dt, model, ob.lineno, ob.path, ob.note, ob.kind, reason,
                               len(jobs_list[idx][1]))
     return results  # type: ignore
+
+
+def shape(name: str, good: bool, bad: bool = False, line: int = 0, note: str = '', backend: str = 'ast-scan') -> Result:
+    """Result of an obligation about the *shape* of the source text.  `good`: the shape the proof needs is present;
+    `bad`: a shape that is known to break the property is present.  Neither -> the code was restructured in a way this
+    obligation does not recognise: that is *undecided* (status unknown), never a violation, so a harmless refactoring
+    cannot raise an alarm."""
+    if bad:
+        return Result(name, 'refuted', backend, 0.0, {}, line, 0, note)
+    if good:
+        return Result(name, 'proved', backend, 0.0, {}, line, 0, note)
+    return Result(name, 'unknown', backend, 0.0, {}, line, 0, note, 'assert',
+                  'source shape not recognised (restructured code?) - undecided, not a violation')
